@@ -249,6 +249,78 @@ func c07Fields(s *source, e *emitter, rel, typeName, leanName string) {
 	e.stringList(leanName, "fields of `"+typeName+"` in "+rel, out)
 }
 
+// c07Uses lists, in source order, every call in the FILE (any function, any package-level initialiser) whose
+// callee text contains `needle` or one of whose arguments is exactly `needle`, as "<enclosing func>: callee(args)".
+func c07Uses(s *source, e *emitter, rel, needle, leanName string) {
+	f := s.file(rel)
+	var out []string
+	if f == nil {
+		e.errors = append(e.errors, "file "+rel+" not found")
+		out = []string{"MISSING"}
+	} else {
+		for _, d := range f.Decls {
+			where := "(package)"
+			if fd, ok := d.(*ast.FuncDecl); ok {
+				where = fd.Name.Name
+			}
+			ast.Inspect(d, func(n ast.Node) bool {
+				c, ok := n.(*ast.CallExpr)
+				if !ok {
+					return true
+				}
+				if _, isLit := c.Fun.(*ast.FuncLit); isLit {
+					return true
+				}
+				name := s.src(c.Fun)
+				hit := strings.Contains(name, needle)
+				var as []string
+				for _, a := range c.Args {
+					if _, isFn := a.(*ast.FuncLit); isFn {
+						as = append(as, "func")
+					} else {
+						as = append(as, s.src(a))
+						if s.src(a) == needle {
+							hit = true
+						}
+					}
+				}
+				if hit {
+					out = append(out, where+": "+name+"("+strings.Join(as, ", ")+")")
+				}
+				return true
+			})
+		}
+	}
+	e.stringList(leanName, "uses of `"+needle+"` in "+rel, out)
+}
+
+// c07VarInits lists `name = <initialiser>` of the package-level variables of the file whose initialiser
+// contains `needle`.
+func c07VarInits(s *source, e *emitter, rel, needle, leanName string) {
+	f := s.file(rel)
+	var out []string
+	if f == nil {
+		e.errors = append(e.errors, "file "+rel+" not found")
+		out = []string{"MISSING"}
+	} else {
+		for _, d := range f.Decls {
+			gd, ok := d.(*ast.GenDecl)
+			if !ok || gd.Tok != token.VAR {
+				continue
+			}
+			for _, sp := range gd.Specs {
+				vs := sp.(*ast.ValueSpec)
+				for i, n := range vs.Names {
+					if i < len(vs.Values) && strings.Contains(s.src(vs.Values[i]), needle) {
+						out = append(out, n.Name+" = "+s.src(vs.Values[i]))
+					}
+				}
+			}
+		}
+	}
+	e.stringList(leanName, "package variables initialised with `"+needle+"` in "+rel, out)
+}
+
 func init() {
 	register("C07", func(s *source, e *emitter) {
 		const sf = "core/syncx/singleflight.go"
@@ -264,6 +336,8 @@ func init() {
 		c07Shape(s, e, lc, "NewLockedCalls", "newLockedCallsShape")
 		c07Shape(s, e, rm, "ResourceManager.GetResource", "getResourceShape")
 		c07Shape(s, e, rm, "NewResourceManager", "newResourceManagerShape")
+		c07Shape(s, e, rm, "ResourceManager.Close", "rmCloseShape")
+		c07Shape(s, e, rm, "ResourceManager.Inject", "rmInjectShape")
 		c07Fields(s, e, sf, "call", "callFields")
 		c07Fields(s, e, sf, "flightGroup", "flightGroupFields")
 		c07Fields(s, e, lc, "lockedGroup", "lockedGroupFields")
@@ -272,5 +346,22 @@ func init() {
 		c07Calls(s, e, "core/stores/cache/cachenode.go", "cacheNode.doTake", "barrier", "cacheNodeBarrierCalls")
 		c07Calls(s, e, "core/collection/cache.go", "Cache.Take", "barrier", "collectionCacheBarrierCalls")
 		c07Calls(s, e, "core/collection/cache.go", "NewCache", "NewSingleFlight", "collectionCacheBarrierCtor")
+		// what the two Take functions do around the flight (lookup before / inside, what joiners are handed)
+		c07Shape(s, e, "core/collection/cache.go", "Cache.Take", "collectionTakeShape")
+		c07Shape(s, e, "core/stores/cache/cachenode.go", "cacheNode.doTake", "cacheNodeDoTakeShape")
+		// sqlc / monc: one process-wide flight group handed to every cache node (keys are the cache keys)
+		c07VarInits(s, e, "core/stores/sqlc/cachedsql.go", "NewSingleFlight", "sqlcFlightVar")
+		c07Uses(s, e, "core/stores/sqlc/cachedsql.go", "singleFlights", "sqlcFlightUses")
+		c07VarInits(s, e, "core/stores/monc/cachedmodel.go", "NewSingleFlight", "moncFlightVar")
+		c07Uses(s, e, "core/stores/monc/cachedmodel.go", "singleFlight", "moncFlightUses")
+		// the ResourceManagers of redis / mongo / sqlx: process-wide, keyed by address / url / dsn
+		c07VarInits(s, e, "core/stores/redis/redisclientmanager.go", "NewResourceManager", "redisClientManagerVar")
+		c07Uses(s, e, "core/stores/redis/redisclientmanager.go", "GetResource", "redisClientManagerUses")
+		c07VarInits(s, e, "core/stores/redis/redisclustermanager.go", "NewResourceManager", "redisClusterManagerVar")
+		c07Uses(s, e, "core/stores/redis/redisclustermanager.go", "GetResource", "redisClusterManagerUses")
+		c07VarInits(s, e, "core/stores/mon/clientmanager.go", "NewResourceManager", "monClientManagerVar")
+		c07Uses(s, e, "core/stores/mon/clientmanager.go", "clientManager.", "monClientManagerUses")
+		c07VarInits(s, e, "core/stores/sqlx/sqlmanager.go", "NewResourceManager", "sqlxConnManagerVar")
+		c07Uses(s, e, "core/stores/sqlx/sqlmanager.go", "GetResource", "sqlxConnManagerUses")
 	})
 }
